@@ -556,6 +556,8 @@ func (fr *Frame) havocLvalue(st *State, se *SpecEnv, lv string, prefix string) (
 		}
 		cur := v.getPath(v.content(st, p.Obj), p.Path)
 		fresh = v.freshLikeT(name, cur, v.typeAtPathOrNil(p.Obj.Type, p.Path))
+		// what the callee may modify is a write of the caller: it must lie within the caller's own frame
+		v.noteWrite(fr, st, p.Obj, p.Path)
 		st.mem[p.Obj] = v.setPath(v.content(st, p.Obj), p.Path, fresh)
 		return fresh
 	case *SliceV:
@@ -564,6 +566,7 @@ func (fr *Frame) havocLvalue(st *State, se *SpecEnv, lv string, prefix string) (
 		}
 		cur := v.getPath(v.content(st, p.Obj), p.Path)
 		nv := v.freshLikeT(name, cur, v.typeAtPathOrNil(p.Obj.Type, p.Path))
+		v.noteWrite(fr, st, p.Obj, p.Path)
 		st.mem[p.Obj] = v.setPath(v.content(st, p.Obj), p.Path, nv)
 		// a callee that may modify a slice can only reach the elements of its window [off, off+cap): the rest of
 		// the backing array is unchanged (frame fact for symbolic arrays)
